@@ -649,4 +649,36 @@ theorem looksLikeHeader_withData (q : PES) (D : Bytes) (hl : D.length = q.pesdat
   unfold looksLikeHeader PES_firstByte
   rw [t1, t2, h1, e8]
 
+theorem PES_WF_withData (q : PES) (D : Bytes) (hl : D.length = q.pesdata.length) (h : PES_WF q) :
+    PES_WF (withData q D) := by
+  obtain ⟨h1, h2, h3, h4⟩ := h
+  exact ⟨h1, h2, by rw [PES_len_withData q D hl]; exact h3, h4⟩
+
+/-- decoding the same packet carrying other PES data `D` of the same length whose first byte is the
+    original one: `PES.unpack` accepts it and hands back `D`, same PID -/
+theorem PES_unpack_withData (q t : PES) (D : Bytes) (hl : D.length = q.pesdata.length) (h : PES_WF q)
+    (hs : q.pkt.sync = 0x47) (hafc : q.pkt.adaption_ctrl = 1 ∨ q.pkt.adaption_ctrl = 3)
+    (hfull : Pkt_used (PES_pkt q) = 188) (h3 : 3 ≤ D.length) (h1 : D.take 1 = q.pesdata.take 1)
+    (hhdr : (PES.ext q = none ∧ ¬ looksLikeHeader q) ∨ (∃ w1 w2 hd, PES.ext q = some (w1, w2, hd) ∧ w1 / 16 = 8)) :
+    ∃ p, PES.unpack t (PES_front q ++ D) = (p, .ok ()) ∧ p.pesdata = D ∧ p.pkt.pid = q.pkt.pid := by
+  have hst : Pkt_stuffing (PES_pkt q) = [] := by simp [Pkt_stuffing, hfull]
+  have hst' : Pkt_stuffing (PES_pkt (withData q D)) = [] := by
+    simp [Pkt_stuffing, Pkt_used_withData q D hl, hfull]
+  have hb : PES_front q ++ D = Pkt_bytes (PES_pkt (withData q D)) := by
+    rw [PES_bytes_withData q D hl, hst, List.append_nil]
+  have hw := PES_WF_withData q D hl h
+  rw [hb]
+  rcases hhdr with ⟨hne, hnl⟩ | ⟨w1, w2, hd, he, hw1⟩
+  · have hne' : PES.ext (withData q D) = none := hne
+    have hnl' : ¬ looksLikeHeader (withData q D) := fun c =>
+      hnl ((looksLikeHeader_withData q D hl hne h1 (by omega)).mp c)
+    have h9 : 3 ≤ (PES_tail (withData q D)).length := by
+      have ed : (withData q D).pesdata = D := rfl
+      simp only [PES_tail, List.length_append, ed]; omega
+    refine ⟨_, PES_unpack_headerless (withData q D) t hw hs hafc hne' h9 hnl', ?_, rfl⟩
+    show D ++ Pkt_stuffing (PES_pkt (withData q D)) = D
+    rw [hst', List.append_nil]
+  · have he' : PES.ext (withData q D) = some (w1, w2, hd) := he
+    exact ⟨_, PES_unpack_header (withData q D) t hw hs hafc w1 w2 hd he' hw1 (by rw [hst']; rfl), rfl, rfl⟩
+
 end Acra.Lemmas.MpegFlip
